@@ -2,11 +2,14 @@
 `shards` parallel processes; results of all jobs of a tier are merged."""
 
 
-def job(name, harness, profile, cmd, shards, extra=None, timeout=None, miriflags=""):
+def job(name, harness, profile, cmd, shards, extra=None, timeout=None, miriflags="", hosts=False):
     j = {"name": name, "harness": harness, "profile": profile, "cmd": cmd, "shards": shards,
          "extra": extra or [], "miriflags": miriflags}
     if timeout:
         j["timeout"] = timeout
+    if hosts:
+        # run the shard with an /etc/hosts (private mount namespace) in which dual.verif has an IPv6 and an IPv4 address
+        j["hosts"] = True
     return j
 
 
@@ -254,8 +257,8 @@ PROPS = {
     "C01": {
         "level": "exploration",
         "jobs": {
-            "quick": [job("letgo", "mux", "verif", "c01b", 4), job("e2e", "e2e", "verif", "c01", 8, timeout=600)],
-            "thorough": [job("letgo", "mux", "verif", "c01b", 16), job("e2e", "e2e", "verif", "c01", 16, timeout=3000)],
+            "quick": [job("letgo", "mux", "verif", "c01b", 4), job("e2e", "e2e", "verif", "c01", 8, timeout=600, hosts=True)],
+            "thorough": [job("letgo", "mux", "verif", "c01b", 16), job("e2e", "e2e", "verif", "c01", 16, timeout=3000, hosts=True)],
         },
         "required_targets": {"any": ["conversations_completed", "udp_replies_checked", "half_close_then_opposite_direction", "close_refuse_abort_paths", "socks5_associations_with_two_targets", "local_close_with_reply_in_flight", "let_go_cases", "live_replies_after_local_half_close"]},
         "assumptions": COMMON_ASSUMPTIONS + E2E_ASSUMPTIONS + [
